@@ -1140,7 +1140,7 @@ func builtinCompose(env *LEnv, args *LVal) *LVal {
 	}
 	g = env.GetFunGlobal(g)
 	if g.Type == LError {
-		return f
+		return g
 	}
 	if g.Type != LFun {
 		return env.Errorf("second argument is not a function: %s", g.Type)
@@ -1506,7 +1506,7 @@ func builtinSortStable(env *LEnv, args *LVal) *LVal {
 		keyFun = optArgs[0]
 		keyFun = env.GetFunGlobal(keyFun)
 		if keyFun.Type == LError {
-			return less
+			return keyFun
 		}
 		if keyFun.Type != LFun {
 			return env.Errorf("third argument is not a function: %v", keyFun.Type)
